@@ -9,20 +9,21 @@ import (
 	"sort"
 	"strings"
 
+	"golang.org/x/tools/go/cfg"
 	"golang.org/x/tools/go/packages"
 )
 
 func init() {
 	register(&Property{
 		ID:       "C03",
-		Patterns: []string{"./sql", "./sql/expression", "./sql/analyzer"},
+		Patterns: []string{"./sql", "./sql/expression", "./sql/analyzer", "./sql/plan", "./sql/rowexec", "./memory"},
 		Explanation: "A filter reaches an index as a chain of finite translation tables, and the in-memory backend turns the range back into a filter. Decided, over the abstract " +
 			"value line {NULL, <k, =k, >k} (two keys: {NULL, <lo, =lo, between, =hi, >hi}): (E) each comparison expression's accepted outcome set of the three-valued compare result, read from Eval, " +
 			"equals the one read from its sibling EvalValue; (F) filter type -> IndexScanOp (analyzer.IndexLeafChildren) -> builder method (rangeBuildDefaultLeaf) -> range constructor(s) called with the " +
 			"converted key -> pair of cuts: the set of abstract points between the cuts equals the set the comparison accepts (inclusivity and direction preserved end to end), and the key-less " +
 			"ranges chosen in the Overflow/Underflow/out-of-range arms equal what the comparison accepts when the key lies above/below every column value; (S) IndexScanOp.Swap mirrors the accepted set; " +
 			"(R) for every ordered pair of cut kinds, MySQLRangeColumnExpr.Type() -> expression built by expression.NewRangeFilterExpr accepts exactly the points between the cuts " +
-			"(a RangeType without an arm silently drops the filter); (X) each dispatch switch of the chain covers its enum or ends in panic/return-false.",
+			"(a RangeType without an arm silently drops the filter); (K) in every function of sql, sql/plan, sql/analyzer, sql/rowexec, memory that converts a value to a column type with an in-range verdict, the converted value becomes an index key only on paths where the verdict is InRange; (X) each dispatch switch of the chain covers its enum or ends in panic/return-false.",
 		NotCovered: "bound value conversion (floor/ceil, rounding arms), collations, multi-column prefix logic, IN lists, range merging/simplification (see C46), whether the planner may drop the residual filter, spatial and full-text ops",
 		Technique:  "finite-domain abstract interpretation of the translation tables (AST folding) + set equality over an abstract value line",
 		Run:        runC03,
@@ -101,6 +102,7 @@ func runC03(c *Ctx) {
 	c.Rule("C03-F", "filter type -> IndexScanOp -> builder method -> keyed range constructor(s) -> cuts: points between the cuts == points the comparison accepts; key-less constructors in Overflow/Underflow/out-of-range arms == what the comparison accepts for a key above/below all values", 20)
 	c.Rule("C03-S", "IndexScanOp.Swap(op) accepts the mirrored outcome set of op (literal-on-the-left filters)", 8)
 	c.Rule("C03-R", "for every ordered pair of cut kinds (two keys lo<=hi): the expression NewRangeFilterExpr builds for MySQLRangeColumnExpr.Type() accepts exactly the abstract points between the cuts", 28)
+	c.Rule("C03-K", "a value converted to the column type never becomes an index key (keyed range argument, Below/Above.Key) on a path where the conversion reported Overflow/Underflow", 7)
 	c.Rule("C03-X", "dispatch switches of the chain are total over their enum or end in panic / explicit failure", 2)
 
 	sqlPk, exPk, anPk := c.P.Pkg("sql"), c.P.Pkg("sql/expression"), c.P.Pkg("sql/analyzer")
@@ -327,6 +329,9 @@ func runC03(c *Ctx) {
 		}
 	}
 
+	// ---- K: clamped keys ------------------------------------------------------------------------
+	ruleClampedKey(c, "C03-K", []string{"sql", "sql/analyzer", "sql/expression", "sql/plan", "sql/rowexec", "memory"})
+
 	// ---- R: range -> filter ---------------------------------------------------------------------
 	c03RangeToFilter(c, sqlPk, exPk, acc)
 }
@@ -543,127 +548,282 @@ func c03FoldCtor(c *Ctx, sqlPk *packages.Package, fd *ast.FuncDecl) (string, str
 	return kind(r.Fields["LowerBound"]), kind(r.Fields["UpperBound"]), nil
 }
 
-// c03CheckBuilder classifies the range-constructor calls inside one MySQLIndexBuilder method
-// and checks their denotations against what the comparison accepts.
+// c03CheckBuilder decides one MySQLIndexBuilder method. The key conversion yields a
+// ConvertInRange value (InRange / Overflow / Underflow); for each of the three values the CFG is
+// walked from the conversion with the branches on that value resolved, and the range
+// constructors reached are compared with what the comparison accepts in that situation:
+// InRange -> the keyed constructors together denote exactly the accepted points; Overflow /
+// Underflow -> no keyed constructor (the clamped key would be scanned), and every key-less
+// constructor denotes what the comparison accepts when the key lies above / below all values.
+// Constructors not reachable from the conversion (float/decimal rounding arms before it) are
+// compared with what the comparison accepts for a key between representable values.
 func c03CheckBuilder(c *Ctx, sqlPk *packages.Package, typeName, op, mname string, fd *ast.FuncDecl, want int, ctorDen map[string]int) {
 	info := sqlPk.TypesInfo
 	cir, _ := sqlPk.Types.Scope().Lookup("ConvertInRange").(*types.TypeName)
-	constName := func(x ast.Expr) string {
-		if tv := info.Types[x]; tv.Value != nil && cir != nil && types.Identical(tv.Type, cir.Type()) {
-			if id := identOf(x); id != nil {
-				return id.Name
-			}
-			if se, ok := x.(*ast.SelectorExpr); ok {
-				return se.Sel.Name
-			}
-		}
-		return ""
-	}
-	mentionsCIR := func(x ast.Expr) bool {
-		found := false
-		ast.Inspect(x, func(n ast.Node) bool {
-			if e, ok := n.(ast.Expr); ok {
-				if tv, ok := info.Types[e]; ok && cir != nil && tv.Type != nil && types.Identical(tv.Type, cir.Type()) {
-					found = true
-				}
-			}
-			return true
-		})
-		return found
-	}
-	// what the comparison accepts when the key is above every column value (all values are "<k"),
-	// below every value (all ">k"), or strictly between representable values (none "=k")
+	isCIR := func(t types.Type) bool { return cir != nil && t != nil && types.Identical(t, cir.Type()) }
 	nn := c03Lt | c03Eq | c03Gt
-	wantOver, wantUnder, wantRound := 0, 0, want&^c03Eq
+	wantOver, wantUnder := 0, 0
 	if want&c03Lt != 0 {
 		wantOver = nn
 	}
 	if want&c03Gt != 0 {
 		wantUnder = nn
 	}
+	wantRound := -1 // one-sided comparison with a fractional key: depends on floor/ceil of the value, not decided
 	if want&c03Lt != 0 && want&c03Gt != 0 {
 		wantRound = nn
 	} else if want&(c03Lt|c03Gt) == 0 {
 		wantRound = 0
-	} else {
-		wantRound = -1 // one-sided comparison with a fractional key: depends on floor/ceil of the value, not decided
 	}
-	keyedUnion, keyedSeen := 0, false
-	var keyedPos token.Pos
-	var stack []ast.Node
-	ast.Inspect(fd.Body, func(n ast.Node) bool {
-		if n == nil {
-			stack = stack[:len(stack)-1]
-			return true
-		}
-		stack = append(stack, n)
-		call, ok := n.(*ast.CallExpr)
-		if !ok {
-			return true
-		}
-		fn := Callee(info, call)
-		if fn == nil {
-			return true
-		}
-		den, isCtor := ctorDen[fn.Name()]
-		if !isCtor || fn.Pkg() != sqlPk.Types {
-			return true
-		}
-		// keyed: at least two args or one arg that is not the column type => has key params
-		sig := fn.Type().(*types.Signature)
-		if sig.Params().Len() >= 2 {
-			keyedUnion |= den
-			keyedSeen = true
-			keyedPos = call.Pos()
-			return true
-		}
-		// key-less constructor: classify by enclosing context
-		ctx := "plain"
-		for i := len(stack) - 1; i >= 0 && ctx == "plain"; i-- {
-			switch s := stack[i].(type) {
-			case *ast.CaseClause:
-				for _, x := range s.List {
-					switch constName(x) {
-					case "Overflow":
-						ctx = "overflow"
-					case "Underflow":
-						ctx = "underflow"
+	prefix := fmt.Sprintf("%s/MySQLIndexBuilder.%s", typeName, mname)
+
+	type ctorCall struct {
+		call  *ast.CallExpr
+		name  string
+		den   int
+		keyed bool
+	}
+	ctorIn := func(n ast.Node) []ctorCall {
+		var out []ctorCall
+		ast.Inspect(n, func(m ast.Node) bool {
+			if _, ok := m.(*ast.FuncLit); ok {
+				return false
+			}
+			if call, ok := m.(*ast.CallExpr); ok {
+				if fn := Callee(info, call); fn != nil && fn.Pkg() == sqlPk.Types {
+					if den, ok := ctorDen[fn.Name()]; ok {
+						out = append(out, ctorCall{call, fn.Name(), den, fn.Type().(*types.Signature).Params().Len() >= 2})
 					}
 				}
-			case *ast.IfStmt:
-				if mentionsCIR(s.Cond) {
-					ctx = "out-of-range"
-				}
 			}
+			return true
+		})
+		return out
+	}
+	var all []ctorCall
+	for _, st := range fd.Body.List {
+		all = append(all, ctorIn(st)...)
+	}
+
+	keyless := typeName == "IsNull" || typeName == "IsNotNull" || (op == "IndexScanOpNullSafeEq" && mname == "IsNull")
+	if keyless {
+		for _, cc := range all {
+			c.Check(cc.den == want, "C03-F", prefix+"/"+cc.name, cc.call.Pos(), "", fmt.Sprintf("%s must scan %s, scans %s", op, c03SetString(want), c03SetString(cc.den)))
 		}
-		key := fmt.Sprintf("%s/%s.%s/%s(%s)", typeName, "MySQLIndexBuilder", mname, fn.Name(), ctx)
-		switch ctx {
-		case "overflow":
-			c.Check(den == wantOver, "C03-F", key, call.Pos(), "", fmt.Sprintf("key above every column value: %s accepts %s of the non-NULL rows, but the Overflow arm scans %s", op, c03SetString(wantOver), c03SetString(den)))
-		case "underflow":
-			c.Check(den == wantUnder, "C03-F", key, call.Pos(), "", fmt.Sprintf("key below every column value: %s accepts %s, but the Underflow arm scans %s", op, c03SetString(wantUnder), c03SetString(den)))
-		case "out-of-range":
-			c.Check(den == wantOver && den == wantUnder, "C03-F", key, call.Pos(), "", fmt.Sprintf("key out of range either way: %s accepts %s (overflow) / %s (underflow), but this arm scans %s", op, c03SetString(wantOver), c03SetString(wantUnder), c03SetString(den)))
-		default:
-			if sig.Params().Len() == 1 && !keyedSeen && (typeName == "IsNull" || typeName == "IsNotNull" || (op == "IndexScanOpNullSafeEq" && mname == "IsNull")) {
-				c.Check(den == want, "C03-F", key, call.Pos(), "", fmt.Sprintf("%s must scan %s, scans %s", op, c03SetString(want), c03SetString(den)))
-			} else if wantRound >= 0 {
-				c.Check(den == wantRound, "C03-F", key, call.Pos(), "", fmt.Sprintf("key between representable values (rounding arm): %s accepts %s, this arm scans %s", op, c03SetString(wantRound), c03SetString(den)))
-			} else {
-				c.Note("C03-F", key, call.Pos(), "value-dependent rounding arm of a one-sided comparison: not decided")
+		if len(all) == 0 {
+			c.Undecided("C03-F", prefix+"/range", fd.Pos(), "no range constructor call found")
+		}
+		return
+	}
+
+	// the statement that defines the ConvertInRange variable
+	g := c.P.CFG(info, fd.Body)
+	var cirObj types.Object
+	var defNode ast.Node
+	ast.Inspect(fd.Body, func(n ast.Node) bool {
+		as, ok := n.(*ast.AssignStmt)
+		if !ok || defNode != nil {
+			return true
+		}
+		for _, l := range as.Lhs {
+			if id := identOf(l); id != nil {
+				o := info.Defs[id]
+				if o == nil {
+					o = info.Uses[id]
+				}
+				if o != nil && isCIR(o.Type()) {
+					cirObj, defNode = o, as
+				}
 			}
 		}
 		return true
 	})
-	if typeName == "IsNull" || typeName == "IsNotNull" || (op == "IndexScanOpNullSafeEq" && mname == "IsNull") {
+	if defNode == nil {
+		c.Undecided("C03-F", prefix+"/conversion", fd.Pos(), "no assignment of a ConvertInRange value found in the builder method")
 		return
 	}
-	key := fmt.Sprintf("%s/%s.%s/keyed-range", typeName, "MySQLIndexBuilder", mname)
-	if !keyedSeen {
-		c.Undecided("C03-F", key, fd.Pos(), "no keyed range constructor call found in the builder method")
+	defPt, ok := FindNode(g, defNode)
+	if !ok {
+		c.Undecided("C03-F", prefix+"/conversion", defNode.Pos(), "conversion statement not in the CFG")
 		return
 	}
-	c.Check(keyedUnion == want, "C03-F", key, keyedPos, c03SetString(want), fmt.Sprintf("%s accepts rows with column in %s relative to the key, but %s -> MySQLIndexBuilder.%s scans %s (inclusivity or direction changed along the chain)", typeName, c03SetString(want), op, mname, c03SetString(keyedUnion)))
+	// case expressions of switches over the ConvertInRange variable
+	caseOf := map[ast.Expr]bool{}
+	ast.Inspect(fd.Body, func(n ast.Node) bool {
+		if sw, ok := n.(*ast.SwitchStmt); ok && sw.Tag != nil {
+			if id := identOf(sw.Tag); id != nil && info.Uses[id] == cirObj {
+				for _, cs := range sw.Body.List {
+					for _, x := range cs.(*ast.CaseClause).List {
+						caseOf[x] = true
+					}
+				}
+			}
+		}
+		return true
+	})
+	constVal := func(x ast.Expr) constant.Value {
+		if tv, ok := info.Types[x]; ok && tv.Value != nil && isCIR(tv.Type) {
+			return tv.Value
+		}
+		return nil
+	}
+	cirConst := func(name string) constant.Value {
+		if k, ok := sqlPk.Types.Scope().Lookup(name).(*types.Const); ok {
+			return k.Val()
+		}
+		return nil
+	}
+	undecidedCond := false
+	mkEdgeOK := func(v constant.Value) func(b *cfg.Block, succ int) bool {
+		return func(b *cfg.Block, succ int) bool {
+			// never follow a back edge into the head of a loop that encloses the conversion
+			if t := b.Succs[succ]; (t.Kind == cfg.KindRangeLoop || t.Kind == cfg.KindForLoop || t.Kind == cfg.KindForPost) && t.Stmt != nil &&
+				t.Stmt.Pos() <= defNode.Pos() && defNode.End() <= t.Stmt.End() {
+				return false
+			}
+			if len(b.Nodes) == 0 || len(b.Succs) != 2 {
+				return true
+			}
+			last, ok := b.Nodes[len(b.Nodes)-1].(ast.Expr)
+			if !ok {
+				return true
+			}
+			truth, decided := false, false
+			if caseOf[last] {
+				if cv := constVal(last); cv != nil {
+					truth, decided = constant.Compare(v, token.EQL, cv), true
+				}
+			} else if be, ok := ast.Unparen(last).(*ast.BinaryExpr); ok && (be.Op == token.EQL || be.Op == token.NEQ) {
+				var other ast.Expr
+				if id := identOf(be.X); id != nil && info.Uses[id] == cirObj {
+					other = be.Y
+				} else if id := identOf(be.Y); id != nil && info.Uses[id] == cirObj {
+					other = be.X
+				}
+				if other != nil {
+					if cv := constVal(other); cv != nil {
+						truth, decided = constant.Compare(v, be.Op, cv), true
+					} else {
+						undecidedCond = true
+					}
+				}
+			} else {
+				// any other condition mentioning the variable cannot be resolved
+				mentions := false
+				ast.Inspect(last, func(n ast.Node) bool {
+					if id, ok := n.(*ast.Ident); ok && info.Uses[id] == cirObj {
+						mentions = true
+					}
+					return true
+				})
+				if mentions {
+					undecidedCond = true
+				}
+			}
+			if !decided {
+				return true
+			}
+			return (succ == 0) == truth
+		}
+	}
+	// the walk must not leave the loop iteration that performed the conversion: the loop header
+	// nodes of every loop enclosing the conversion are barriers, like the conversion itself
+	loopHeads := map[ast.Node]bool{}
+	ast.Inspect(fd.Body, func(n ast.Node) bool {
+		switch l := n.(type) {
+		case *ast.RangeStmt:
+			if l.Pos() <= defNode.Pos() && defNode.End() <= l.End() {
+				if l.Key != nil {
+					loopHeads[l.Key] = true
+				}
+				if l.Value != nil {
+					loopHeads[l.Value] = true
+				}
+			}
+		case *ast.ForStmt:
+			if l.Pos() <= defNode.Pos() && defNode.End() <= l.End() {
+				if l.Cond != nil {
+					loopHeads[l.Cond] = true
+				}
+				if l.Post != nil {
+					loopHeads[l.Post] = true
+				}
+			}
+		}
+		return true
+	})
+	isDef := func(n ast.Node) bool { return n == defNode || loopHeads[n] }
+	reachedAny := map[*ast.CallExpr]bool{}
+	for _, sit := range []struct {
+		name  string
+		val   constant.Value
+		wantK int
+	}{{"InRange", cirConst("InRange"), want}, {"Overflow", cirConst("Overflow"), wantOver}, {"Underflow", cirConst("Underflow"), wantUnder}} {
+		if sit.val == nil {
+			c.Undecided("C03-F", prefix+"/"+sit.name, fd.Pos(), "ConvertInRange constant not found")
+			continue
+		}
+		var reached []ctorCall
+		for _, n := range ReachableNodes(g, defPt, isDef, mkEdgeOK(sit.val)) {
+			reached = append(reached, ctorIn(n)...)
+		}
+		for _, cc := range reached {
+			reachedAny[cc.call] = true
+		}
+		key := prefix + "/" + sit.name
+		if sit.name == "InRange" {
+			union, keylessSeen := 0, ""
+			for _, cc := range reached {
+				if cc.keyed {
+					union |= cc.den
+				} else {
+					keylessSeen = cc.name
+				}
+			}
+			switch {
+			case len(reached) == 0:
+				c.Undecided("C03-F", key, defNode.Pos(), "no range constructor reachable for an in-range key")
+			case keylessSeen != "":
+				c.Bad("C03-F", key, defNode.Pos(), fmt.Sprintf("for an in-range key the key-less range %s is reachable: the scan ignores the key", keylessSeen))
+			default:
+				c.Check(union == want, "C03-F", key, defNode.Pos(), c03SetString(want), fmt.Sprintf("%s accepts rows with column in %s relative to the key, but %s -> MySQLIndexBuilder.%s scans %s for an in-range key (inclusivity or direction changed along the chain)", typeName, c03SetString(want), op, mname, c03SetString(union)))
+			}
+			continue
+		}
+		if len(reached) == 0 {
+			c.Bad("C03-F", key, defNode.Pos(), fmt.Sprintf("no range is produced when the key conversion reports %s", sit.name))
+			continue
+		}
+		okAll := true
+		msg := ""
+		for _, cc := range reached {
+			if cc.keyed {
+				okAll = false
+				msg = fmt.Sprintf("the key conversion reports %s (key clamped to the column type's bound) yet the keyed range %s is built from it: rows holding the bound value match a literal that is outside the type", sit.name, cc.name)
+			} else if cc.den != sit.wantK {
+				okAll = false
+				msg = fmt.Sprintf("key %s every column value: %s accepts %s of the non-NULL rows, but the %s arm scans %s (%s)", map[string]string{"Overflow": "above", "Underflow": "below"}[sit.name], op, c03SetString(sit.wantK), sit.name, c03SetString(cc.den), cc.name)
+			}
+		}
+		c.Check(okAll, "C03-F", key, defNode.Pos(), "", msg)
+	}
+	if undecidedCond {
+		c.Undecided("C03-F", prefix+"/conditions", defNode.Pos(), "a branch condition on the ConvertInRange value could not be resolved")
+	}
+	// constructors outside the conversion's reach: rounding arms (key between representable values)
+	for _, cc := range all {
+		if reachedAny[cc.call] {
+			continue
+		}
+		key := prefix + "/rounding/" + cc.name
+		if cc.keyed {
+			c.Note("C03-F", key, cc.call.Pos(), "keyed range before the key conversion: value-dependent, not decided")
+		} else if wantRound >= 0 {
+			c.Check(cc.den == wantRound, "C03-F", key, cc.call.Pos(), "", fmt.Sprintf("key between representable values (rounding arm): %s accepts %s, this arm scans %s", op, c03SetString(wantRound), c03SetString(cc.den)))
+		} else {
+			c.Note("C03-F", key, cc.call.Pos(), "value-dependent rounding arm of a one-sided comparison: not decided")
+		}
+	}
 }
 
 // ---- R: range -> filter expression ---------------------------------------------------------------
